@@ -519,7 +519,8 @@ impl TcpBack {
         let sentinel = !own;
         let mut all = bytes.to_vec();
         all.extend_from_slice(&wire::Frame::new(wire::NOOP, &[], &[], &[], sentinel, 0).bytes());
-        let wait = std::time::Duration::from_secs(20);
+        // two waits of 10 s stay below the 30 s case watchdog of the history checks
+        let wait = std::time::Duration::from_secs(10);
         if self.client.send_chunk(&all, wait) != crate::l3::Drain::Drained {
             res.decode_err = Some("over TCP: the server did not take the request off the socket".into());
             return res;
@@ -528,7 +529,7 @@ impl TcpBack {
         if !ok || self.client.malformed.is_some() {
             res.decode_err = Some(format!(
                 "over TCP: no complete answer (connection {}; {} responses parsed; {})",
-                if self.client.eof || self.client.reset { "closed by the server" } else { "open, silent for 20 s" },
+                if self.client.eof || self.client.reset { "closed by the server" } else { "open, silent for 10 s" },
                 self.client.resps.len(),
                 self.client.malformed.clone().unwrap_or_default()
             ));
